@@ -27,7 +27,7 @@ GXX = ['g++', '-std=c++17', '-O1', '-g', '-w', '-mbmi2', '-D' + GUARD, '-I' + RE
        '-fsanitize=address', '-fsanitize=float-cast-overflow,bounds,shift,null', '-fno-sanitize-recover=all']
 GCC_TWIN = ['gcc', '-O1', '-fno-strict-aliasing', '-fwrapv', '-w', '-DVERIF_TWIN', '-I' + os.path.join(ROOT, 'rt'),
             '-I' + os.path.join(ROOT, 'harness')]
-CBMC_BASE = ['--object-bits', '10', '--unwinding-assertions', '--no-malloc-may-fail', '--drop-unused-functions', '--undefined-shift-check',
+CBMC_BASE = ['--object-bits', '10', '--no-pointer-primitive-check', '--unwinding-assertions', '--no-malloc-may-fail', '--drop-unused-functions', '--undefined-shift-check',
              '--signed-overflow-check', '--trace']
 STUBS = [
     'operator new = malloc + assume non-NULL (allocation failure out of scope; --no-malloc-may-fail); operator delete = free',
